@@ -304,7 +304,7 @@ func runC04(r *h.Run) {
 		if pat == "race-client" {
 			graceful = false // a racing Client() legitimately disturbs the graceful path
 		}
-		if graceful && injected < 200*time.Millisecond && w.Faults["conn.latency"] == 0 {
+		if graceful && injected < 200*time.Millisecond && w.FaultCount("conn.latency") == 0 {
 			w.Probe("graceful.expected")
 			if proc.GotKill {
 				r.Violate("killed-despite-graceful-exit", pctx, fmt.Sprintf("the plugin exits by itself within 500ms of the shutdown request but received SIGKILL (exited at %v, request at %v)", proc.ExitedAt, p.reqAt))
